@@ -275,7 +275,8 @@ class Num:
             return Num(0, True)
         if o.concrete and o.t == 1:
             return Num(self.t, True)
-        engine().note_division(o)
+        if _ENGINE[0] is not None:
+            _ENGINE[0].note_division(o)
         return Num(self.zr() / o.zr(), True)
 
     def __rtruediv__(self, o):
